@@ -260,6 +260,23 @@ def Net.fastcc (n : Net) (sub : List Nat) (thr : Rat) (flip : List Nat) (flipped
       ⟨"constraint_" ++ (n.rx i).id, .fin 0, .pinf, [(.fwd i, s), (.rev i, s), (.auxv i, -1)]⟩),
     obj := sub.map (fun i => (.auxv i, if flipped then -1 else 1)), dirMax := true }
 
+/-- the content with the reactions `ks` closed (`Reaction.knock_out`: bounds `(0, 0)`) -/
+def Net.close (n : Net) (ks : List Nat) : Net :=
+  { n with rxns := (n.rxns.zipIdx).map (fun p =>
+      if ks.contains p.2 then ({ id := p.1.id, rev := p.1.rev, lb := .fin 0, ub := .fin 0, st := p.1.st } : Rxn) else p.1) }
+
+/-- the reactions a set of gene knock-outs closes: those with a rule that evaluates to false (`Gene.knock_out`, C07) -/
+def closedBy (rules : List (Option GPRM.G)) (ko : List String) : List Nat :=
+  (rules.zipIdx.filter (fun p => match p.1 with
+    | some g => !GPRM.eval (fun s => ko.contains s) g
+    | none => false)).map (·.2)
+
+/-- the problem a reaction deletion solves (method "fba") -/
+def Net.reactionDeletion (n : Net) (ks : List Nat) : Prob := (n.close ks).fba
+
+/-- the problem a gene deletion solves (method "fba"): the reactions whose rule is false without the genes are closed -/
+def Net.geneDeletion (n : Net) (rules : List (Option GPRM.G)) (ko : List String) : Prob := (n.close (closedBy rules ko)).fba
+
 /-- the internal (non-boundary) reactions, in model order -/
 def Net.internal (n : Net) : List Nat := n.idx.filter (fun i => !(n.rx i).boundary)
 
